@@ -31,6 +31,10 @@ use std::io;
 use std::marker::PhantomData;
 use std::mem::{align_of, size_of};
 use std::ptr::copy;
+// (with the `verif-hooks` feature the typed loads and stores below are traced like the byte copies)
+#[cfg(feature = "verif-hooks")]
+use crate::verif_hooks::{read_volatile, write_volatile};
+#[cfg(not(feature = "verif-hooks"))]
 use std::ptr::{read_volatile, write_volatile};
 use std::result;
 use std::sync::atomic::Ordering;
